@@ -27,6 +27,7 @@ type Engine struct {
 	startRows      int
 	lineCol        int
 	lineRows       int
+	lineSpans      []int
 	cursorRow      int
 	cursorCol      int
 	hintRows       int
@@ -225,8 +226,10 @@ func (e *Engine) computeCoordinates(suggested bool) {
 	// Get the number of rows used by the line, and the end line X pos.
 	if e.opts.GetBool("history-autosuggest") && suggested {
 		e.lineCol, e.lineRows = core.CoordinatesLine(&e.suggested, e.startCols)
+		e.lineSpans = core.CoordinatesLines(&e.suggested, e.startCols)
 	} else {
 		e.lineCol, e.lineRows = core.CoordinatesLine(e.line, e.startCols)
+		e.lineSpans = core.CoordinatesLines(e.line, e.startCols)
 	}
 
 	e.primaryPrinted = false
@@ -271,18 +274,21 @@ func (e *Engine) displayLine() {
 }
 
 func (e *Engine) displayMultilinePrompts() {
-	// If we have more than one line, write the columns.
-	if e.line.Lines() > 1 {
+	// If we have more than one line, write the columns on the first row of
+	// each line but the first, then rewrite the last of them with any
+	// secondary prompt available, and go back to the end of the line.
+	if e.line.Lines() > 0 {
+		rows := e.lineSpans
+		last := len(rows) - 1
+
 		term.MoveCursorUp(e.lineRows)
 		term.MoveCursorBackwards(term.GetWidth())
-		e.prompt.MultilineColumnPrint()
-	}
+		e.prompt.MultilineColumnPrint(rows[:last])
 
-	// Then if we have a line at all, rewrite the last column
-	// character with any secondary prompt available.
-	if e.line.Lines() > 0 {
 		term.MoveCursorBackwards(term.GetWidth())
 		e.prompt.SecondaryPrint()
+
+		term.MoveCursorDown(rows[last])
 		term.MoveCursorBackwards(term.GetWidth())
 		term.MoveCursorForwards(e.lineCol)
 	}
